@@ -35,8 +35,11 @@ func BuildGroup(prime *big.Int) (Group, bool) {
 		return result, false
 	}
 
-	result.G = new(big.Int).Exp(big.NewInt(0x41424344), big.NewInt(0x45464748), result.P)
-	result.H = new(big.Int).Exp(big.NewInt(0x494A4B4C), big.NewInt(0x4D4E4F50), result.P)
+	// The generators depend on the prime. (The prime is chosen by whoever makes the proof: for
+	// generators that are fixed integers reduced modulo it, a prime dividing, e.g., a^x - b^y for
+	// small x and y would give its maker the discrete logarithm of h with respect to g.)
+	result.G = deriveGenerator(result.P, 0, nil)
+	result.H = deriveGenerator(result.P, 1, result.G)
 
 	result.GTable.Compute(result.G.Go(), result.P.Go(), 7)
 	result.HTable.Compute(result.H.Go(), result.P.Go(), 7)
@@ -45,6 +48,19 @@ func BuildGroup(prime *big.Int) (Group, bool) {
 	result.OrderMod.Set(result.Order)
 
 	return result, true
+}
+
+// deriveGenerator hashes the prime (and an index) to a number of its size and squares it: an element
+// of the subgroup of order (P-1)/2, different from 1 (and from the other generator).
+func deriveGenerator(p *big.Int, index int, other *big.Int) *big.Int {
+	for i := index; ; i += 2 {
+		x := common.GetHashNumber(p, nil, i, uint(p.BitLen()))
+		x.Mod(x, p)
+		x.Mul(x, x).Mod(x, p)
+		if x.Cmp(big.NewInt(1)) > 0 && (other == nil || x.Cmp(other) != 0) {
+			return x
+		}
+	}
 }
 
 func (g *Group) Exp(ret *big.Int, name string, exp, _ *big.Int) bool {
